@@ -113,6 +113,17 @@ func work(w *mon.W) {
 				}
 				st.mu.Unlock()
 			}
+			if strings.HasPrefix(string(ctx.Request.RequestURI()), "/mp") {
+				// the body is consumed through the multipart API instead of raw reads
+				form, err := ctx.MultipartForm()
+				v := "<error>"
+				if err == nil && form != nil && len(form.Value["a"]) > 0 {
+					v = form.Value["a"][0]
+				}
+				st.mu.Lock()
+				st.got, st.gotErr = []byte(v), err
+				st.mu.Unlock()
+			}
 			ctx.SetStatusCode(200)
 			ctx.Response.SetBodyString("ok:" + string(ctx.Request.RequestURI()))
 		}
@@ -189,6 +200,13 @@ func work(w *mon.W) {
 		}
 	})
 	w.Cases("stall", uint64(w.Pick(4000, 100000)), func(c *mon.Case) { stallCase(w, c, e, st) })
+	// multipart: a streamed multipart/form-data body (chunked; or fixed-length beyond the
+	// prefetch on an engine that does not pre-parse forms) read by the handler through
+	// ctx.MultipartForm(), which stops at the closing boundary: whatever follows it inside
+	// the body (CRLF, an epilogue, the terminating chunk) must still not be taken for the
+	// next request
+	noPre := rig.NewEngine(rig.Options(func(o *config.Options) { o.StreamRequestBody = true; o.DisablePreParseMultipartForm = true }), func(e *route.Engine) { e.NoRoute(handler(st)) })
+	w.Cases("multipart", uint64(w.Pick(3000, 60000)), func(c *mon.Case) { multipartCase(w, c, e, noPre, st) })
 	// after-abort: first a connection whose peer vanishes in the middle of a streamed body
 	// that the handler read only partly (draining it fails), then — on a new connection of
 	// the same engine, which recycles the pooled stream objects — an ordinary case
@@ -218,6 +236,94 @@ func work(w *mon.W) {
 		}
 		oneConn(w, c, e, st, nil, nil)
 	})
+}
+
+func multipartCase(w *mon.W, c *mon.Case, e, noPre *route.Engine, st *state) {
+	r := c.R
+	id := c.G*1000 + uint64(r.Intn(1000))
+	val := string(wire.PosBody(int(id%50), r.Int(0, 1, 10, 300, 5000, 9000)))
+	val = strings.NewReplacer("\r", "r", "\n", "n", "-", "d").Replace(val)
+	epilogue := r.Str("", "", "\r\n", "epilogue text\r\n", fmt.Sprintf("\r\nGET /smuggled-%d HTTP/1.1\r\nHost: x\r\n\r\n", id))
+	if r.Chance(6) {
+		epilogue += strings.Repeat("e", 9000)
+	}
+	body := "--xx\r\nContent-Disposition: form-data; name=\"a\"\r\n\r\n" + val + "\r\n--xx--\r\n" + epilogue
+	chunked := r.Bool()
+	eng := e
+	var wb bytes.Buffer
+	if chunked {
+		fmt.Fprintf(&wb, "POST /mp-%d HTTP/1.1\r\nHost: x\r\nContent-Type: multipart/form-data; boundary=xx\r\nTransfer-Encoding: chunked\r\n\r\n", id)
+		b := body
+		max := r.Int(3, 50, 5000, 20000)
+		for len(b) > 0 {
+			n := 1 + r.Intn(max)
+			if n > len(b) {
+				n = len(b)
+			}
+			fmt.Fprintf(&wb, "%x\r\n%s\r\n", n, b[:n])
+			b = b[n:]
+		}
+		wb.WriteString("0\r\n\r\n")
+	} else {
+		eng = noPre
+		fmt.Fprintf(&wb, "POST /mp-%d HTTP/1.1\r\nHost: x\r\nContent-Type: multipart/form-data; boundary=xx\r\nContent-Length: %d\r\n\r\n%s", id, len(body), body)
+	}
+	reqWire := wb.Bytes()
+	probe := fmt.Sprintf("GET /probe-%d HTTP/1.1\r\nHost: x\r\n\r\n", id)
+	stream := append(append([]byte{}, reqWire...), probe...)
+	frags, policy := wire.FragSchedule(r, stream, []int{len(reqWire)})
+	buf := r.Int(4096, 4096, 100, 8192)
+	st.mu.Lock()
+	st.cur, st.got, st.gotErr, st.paths, st.done, st.hasDone = plan{stopAfter: -1, readSizes: []int{4096}}, nil, nil, nil, nil, false
+	st.mu.Unlock()
+	c.Detail = func() interface{} {
+		return map[string]interface{}{"family": "multipart", "value_len": len(val), "epilogue": trunc(epilogue, 80), "chunked": chunked, "policy": policy, "frag_sizes": wire.FragSizes(frags), "buf": buf}
+	}
+	sc := sconn.New(frags, sconn.EOF)
+	res := rig.Serve(eng, sc, buf, false, 15*time.Second)
+	w.Count("multipart_connections", 1)
+	if res.Hang {
+		c.Violate("hang", "Serve did not finish on a finite input\n%s", trunc(res.Stack, 2500))
+		return
+	}
+	if res.Panic != nil {
+		c.Violate(mon.PanicKey(res.Stack), "panic: %v\n%s", res.Panic, trunc(res.Stack, 2000))
+		return
+	}
+	st.mu.Lock()
+	got, gotErr, paths := string(st.got), st.gotErr, append([]string{}, st.paths...)
+	st.mu.Unlock()
+	if got != val {
+		c.Violate("multipart-value", "the handler's MultipartForm() gives the field %d bytes (err %v), the part carries %d bytes", len(got), gotErr, len(val))
+		return
+	}
+	np := 0
+	for _, p := range paths {
+		switch p {
+		case fmt.Sprintf("POST /mp-%d", id):
+		case fmt.Sprintf("GET /probe-%d", id):
+			np++
+		default:
+			key := "desync"
+			if strings.Contains(p, "/smuggled-") {
+				key = "smuggled-request"
+			}
+			c.Violate(key, "a handler ran for %q, which is not one of the requests sent (bytes of the multipart body after its closing boundary were interpreted as a request)", p)
+			return
+		}
+	}
+	out := string(res.Out)
+	nresp := strings.Count(out, "HTTP/1.1 ")
+	switch {
+	case np == 1 && nresp == 2 && strings.HasSuffix(out, "ok:/probe-"+fmt.Sprint(id)):
+		w.Count("multipart_probe_served", 1)
+	case np == 0 && nresp == 1 && (res.Closed || res.Err != nil):
+		w.Count("multipart_closed_instead_of_drained", 1)
+	default:
+		c.Violate("closed-but-more", "after the multipart request: probe served %d times, %d responses written, closed=%v: %q", np, nresp, res.Closed, trunc(out, 300))
+		return
+	}
+	w.Shape(mon.Hash64("mp", len(val), epilogue, chunked, policy, buf))
 }
 
 func sconnEnd(r *mon.Rand) sconn.End {
